@@ -561,6 +561,11 @@ inv_run([(5, True, [(SEC, "S1", None, None, {}), (SEC, "S2", None, b"\x09", {})]
 inv_run([(0, True, [(PUB, "KE", EC[0], None, {}), (PRIV, "KE", EC[0], None, {}), (PUB, "KF", EC[1], None, {"ec_wrapped": False}), (PRIV, "KF", EC[1], None, {})])],
         {"e": ceremony.ksk_def(EC[0]), "f": ceremony.ksk_def(EC[1])}, "inventory-ec")
 inv_run([(0, True, [(PUB, "KE", EC[0], None, {}), (PRIV, "KE", EC[0], None, {})])], {"e": ceremony.ksk_def(EC[1], label="KE")}, "inventory-ec")
+# a KSK whose key tag sum carries out of 16 bits after the fold (RFC 4034 App. B discards that carry), configured with its true tag and DS - and with the tag one higher
+KCARRY = ksrxml.mk_key(P.ec_tag_carry(13, 257), alg=13, flags=257, ident="KCARRY")
+P.save()
+inv_run([(0, True, [(PUB, "KCARRY", KCARRY, None, {}), (PRIV, "KCARRY", KCARRY, None, {})])], {"c": ceremony.ksk_def(KCARRY)}, "inventory-keytag-carry")
+inv_run([(0, True, [(PUB, "KCARRY", KCARRY, None, {}), (PRIV, "KCARRY", KCARRY, None, {})])], {"c": ceremony.ksk_def(KCARRY, key_tag=(KCARRY["tag"] + 1) % 65536)}, "inventory-keytag-carry")
 inv_run([(0, True, [(PUB, "KE", EC[0], None, {"extra": {LL.CKA_EC_POINT: ()}}), (PRIV, "KE", EC[0], None, {})])], good, "inventory-no-pubkey")
 inv_run([(0, True, [(PUB, "KE", EC[0], None, {"extra": {LL.CKA_EC_POINT: ()}})])], good, "inventory-no-pubkey")
 inv_run([(0, True, [(PUB, "KX", K0, None, {"key_type": LL.CKK_AES}), (PRIV, "KX", K0, None, {})])], good, "inventory-unknown-type")
